@@ -262,7 +262,7 @@ def family_c06(tier, seed):
             for w_ in ("win_sum", "rownum", "group_take", "derive_add", "filter_gt", "group_rownum", "agg"):
                 pipe = build("sel", (s_, tk, w_), alpha)
                 if pipe is not None:
-                    bases.append((f"sel:{s_}>{tk}>{w_}", Prog(pipe)))
+                    bases.append((f"T|sel:{s_}>{tk}>{w_}", Prog(pipe)))
     # consecutive takes that the compiler merges into one LIMIT/OFFSET when they share a SELECT: naming the prefix between
     # them, or putting `filter true` there, forces two SELECTs - both forms must agree
     for s_ in ("sort_asc", "sort_desc2"):
@@ -272,7 +272,7 @@ def family_c06(tier, seed):
                     seq = (s_, tk1) + ((mid,) if mid else ()) + (tk2,)
                     pipe = build("sel", seq, alpha)
                     if pipe is not None:
-                        bases.append(("sel:" + ">".join(seq), Prog(pipe)))
+                        bases.append(("T|sel:" + ">".join(seq), Prog(pipe)))
     if tier == "thorough":
         names = ["derive_lit", "filter_and", "filter_halfopen", "derive_halfopen", "sort_asc", "take_n", "group_agg", "join_inner", "win_sum", "select_2", "agg", "group_take", "distinct", "derive_mix", "take_range"]
         bases += [b for b in enumerate_family(3, heads=("sel",), alphabet=alpha, only_names=names) if b[0].count(">") == 2]
@@ -297,6 +297,10 @@ def family_c06(tier, seed):
         keep, per = [], {}
         for item in out:
             k = item[1][2].split("@")[0]
+            if item[0].startswith("T|") and per.get("T|" + k, 0) < 120:
+                per["T|" + k] = per.get("T|" + k, 0) + 1          # targeted bases: their own, separate allowance
+                keep.append(item)
+                continue
             if per.get(k, 0) < 160:
                 per[k] = per.get(k, 0) + 1
                 keep.append(item)
